@@ -903,13 +903,14 @@ func execMvcc(intents []string, st *Stats) (final, outs, oracle []string) {
 // clockStep: sessions with relative expiry times follow the wall clock. badger compares ExpiresAt
 // with time.Now().Unix() inside each operation; the oracle and the model use s.now. No operation
 // may straddle the second in which an entry expires, so when the clock is within one second of a
-// pending expiry E (now == E-1) the session waits until E has passed; `force` waits for the next
+// pending expiry E (now >= E-2) the session waits until E has passed (an operation may take up to
+// two seconds on a loaded machine); `force` waits for the next
 // pending expiry in any case (op sleepuntil). A changed clock is reported to the model as a derived
 // `now T` line.
 func (s *mvSess) clockStep(emit func(string, string), force bool) {
 	now := uint64(time.Now().Unix())
 	for _, e := range s.relExp {
-		if e > now && (force || e-now <= 1) {
+		if e > now && (force || e-now <= 2) {
 			for uint64(time.Now().Unix()) < e {
 				time.Sleep(20 * time.Millisecond)
 			}
@@ -923,7 +924,7 @@ func (s *mvSess) clockStep(emit func(string, string), force bool) {
 	now = uint64(time.Now().Unix())
 	// the guard above may have moved us into the second before an expiry
 	for _, e := range s.relExp {
-		if e > now && e-now <= 1 {
+		if e > now && e-now <= 2 {
 			for uint64(time.Now().Unix()) < e {
 				time.Sleep(20 * time.Millisecond)
 			}
@@ -2318,8 +2319,8 @@ func genMvccSession(rng *rand.Rand, st *Stats) []string {
 			k := keys[rng.Intn(len(keys))]
 			k2 := append([]byte("tt"), byte(rng.Intn(3)))
 			ops = append(ops, fmt.Sprintf("begin %d 1 %d", nextID, rts),
-				fmt.Sprintf("set %d %s 0 %d +2 %s 0", nextID, hx(k), rng.Intn(256), hx(genVal())),
-				fmt.Sprintf("set %d %s 0 %d +2 %s 0", nextID, hx(k2), rng.Intn(256), hx(genVal())))
+				fmt.Sprintf("set %d %s 0 %d +4 %s 0", nextID, hx(k), rng.Intn(256), hx(genVal())),
+				fmt.Sprintf("set %d %s 0 %d +4 %s 0", nextID, hx(k2), rng.Intn(256), hx(genVal())))
 			c := uint64(0)
 			if managed {
 				cts++
